@@ -101,6 +101,8 @@ def run_history(case):
             finally:
                 waiting.pop(s, None)
 
+    t0_clock = sched.clock
+
     def main():
         from s3transfer.futures import TransferCoordinator
         bucket = bw.LeakyBucket(max_bw)
@@ -150,12 +152,14 @@ def run_history(case):
 
         def abandoner(i, t):
             def run():
-                d = t - sched.clock
+                d = t0_clock + t - sched.clock
                 if d > 0:
                     sched.sleep(d)
                 e = RuntimeError(f'stream {i} abandoned')
-                exc_of[i] = (e, sched.clock)
                 coords[i].set_exception(e)
+                # the failure counts from the moment set_exception returned
+                # (the call itself can be preempted at the coordinator lock)
+                exc_of[i] = (e, sched.clock)
             return run
         runners = []
         for i, script in enumerate(case['streams']):
